@@ -4266,7 +4266,21 @@ impl<'a> Parser<'a> {
         let mut patterns = self.parse_pattern_alternatives()?;
         self.expect('|')?;
         self.skip_ws();
-        let body = self.parse_expr()?;
+        // The body is parsed by recursion *after* `parse_primary` has returned
+        // (and given its depth back), so a chain `. as $a | . as $b | ...` would
+        // otherwise nest once per binding without ever being charged -- 100 000
+        // of them overflowed the stack. Charge the body like any other nesting.
+        self.expr_depth += 1;
+        let body = if self.expr_depth > MAX_EXPR_DEPTH {
+            Err(ParseError::new(
+                format!("expression nesting exceeds depth limit of {MAX_EXPR_DEPTH}"),
+                self.pos,
+            ))
+        } else {
+            self.parse_expr()
+        };
+        self.expr_depth -= 1;
+        let body = body?;
 
         // No `?//` alternatives: keep the simpler, pre-existing `Expr::As`
         // shape for a bare `$var` pattern (every other `Expr::As` call site
